@@ -72,8 +72,8 @@ ConsistentZ(o) ==
      /\ o.n = o.cnt /\ o.n = o.lcnt /\ o.ex = B(o.n > 0)
      /\ o.rev = Rev(o.rng) /\ o.bys = o.rng
      /\ Cardinality(Ids(ms)) = Len(ms)
-     /\ \A i \in 1..(Len(o.rng) - 1) : \/ o.rng[i][2] < o.rng[i + 1][2]
-                                       \/ (o.rng[i][2] = o.rng[i + 1][2] /\ o.rng[i][1] < o.rng[i + 1][1])
+     /\ \A i \in 1..(Len(o.rng) - 1) : \/ Ord(o.rng[i][2]) < Ord(o.rng[i + 1][2])
+                                       \/ (Ord(o.rng[i][2]) = Ord(o.rng[i + 1][2]) /\ o.rng[i][1] < o.rng[i + 1][1])
      /\ o.lex = Sorted(Ids(ms))
      /\ \A i \in 1..Len(o.pt) : LET p == o.pt[i] IN  \* p = <<member, found, score, rank, revrank>>
            /\ p[2] = B(p[1] \in Ids(ms))
